@@ -236,6 +236,6 @@ Theorem set_op_accounted : forall op s g r s' g',
   NoDup s -> sa_set_op ord op (s, g) = (r, (s', g')) ->
   NoDup s' /\ forall x, countZ x s' - countZ x s = net x g' - net x g.
 Proof.
-  intros op s g r s' g' I H. destruct (acc_set_op op _ _ _ I H) as [I' B].
+  intros op s g r s' g' I H. destruct (acc_set_op op (s, g) _ _ I H) as [I' B].
   split; [exact I'|]. intro x. specialize (B x). unfold bal in B. cbn [fst snd] in B. lia.
 Qed.
